@@ -163,7 +163,7 @@ enum Prim {
     None,
     Pw,
     Gen,
-    Mfa { totp: bool, backup: bool },
+    Mfa { totp: bool, seckey: bool, backup: bool },
 }
 struct Acct {
     name: String,
@@ -173,6 +173,8 @@ struct Acct {
     pwbad: bool,
     cred_id: Option<Uuid>,
     totps: Vec<Totp>,
+    /// the account has a (fixture) passkey
+    passkey: bool,
     /// currently stored validity window (absolute ns)
     vf: Option<u64>,
     ex: Option<u64>,
@@ -184,14 +186,15 @@ impl Acct {
             Prim::None => "PNone".to_string(),
             Prim::Pw => "PPw".to_string(),
             Prim::Gen => "PGen".to_string(),
-            Prim::Mfa { totp, backup } => format!("(PMfa {} false {})", cbool(totp), cbool(backup)),
+            Prim::Mfa { totp, seckey, backup } => format!("(PMfa {} {} {})", cbool(totp), cbool(seckey), cbool(backup)),
         };
         format!(
-            "(mkacct {} {} {} {} false false false {})",
+            "(mkacct {} {} {} {} {} false false {})",
             copt(&self.vf, rel),
             copt(&self.ex, rel),
             cbool(self.anon),
             prim,
+            cbool(self.passkey),
             cbool(self.pwbad)
         )
     }
@@ -210,16 +213,20 @@ fn cai() -> ClientAuthInfo {
     ClientAuthInfo::new(Source::Internal, None, None, None)
 }
 
-async fn mk_account(idms: &IdmServer, n: u64, prim: Prim, pwbad: bool, n_totp: usize, rng: &mut Rng) -> Acct {
+async fn mk_account(idms: &IdmServer, n: u64, prim: Prim, pwbad: bool, n_totp: usize, passkey: bool, rng: &mut Rng) -> Acct {
     let pw = if pwbad { PW_LISTED } else { PW_GOOD };
     let mut totps = vec![];
     let cred = match prim {
         Prim::None => None,
         Prim::Pw => Some(hook::cred_new_password(pw)),
         Prim::Gen => Some(hook::cred_new_generated_password(pw)),
-        Prim::Mfa { totp, backup } => {
-            assert!(totp, "a stored password+MFA credential needs a TOTP or a security key");
+        Prim::Mfa { totp, seckey, backup } => {
+            assert!(totp || seckey, "a stored password+MFA credential needs a TOTP or a security key");
+            assert!(totp == (n_totp > 0));
             let mut c = hook::cred_new_password(pw);
+            if seckey {
+                c = hook::cred_add_fixture_security_key(&c, n as u8).expect("security key");
+            }
             for i in 0..n_totp {
                 let algo = if i == 0 { TotpAlgo::Sha256 } else { TotpAlgo::Sha1 };
                 let t = Totp::new(rng.bytes(24), 30, algo, TotpDigits::Six);
@@ -247,10 +254,14 @@ async fn mk_account(idms: &IdmServer, n: u64, prim: Prim, pwbad: bool, n_totp: u
     if let Some(c) = cred {
         e.add_ava(Attribute::PrimaryCredential, Value::new_credential("primary", c));
     }
+    if passkey {
+        let pk_id = Uuid::from_u128(0xc27c_27c2_0000_0000_0000_0000_00ff_0000u128 + n as u128);
+        e.add_ava(Attribute::PassKeys, hook::fixture_passkey_value(pk_id, 100 + n as u8));
+    }
     let mut w = idms.proxy_write(duration_from_epoch_now()).await.expect("proxy_write");
     w.qs_write.internal_create(vec![e]).expect("create person");
     w.commit().expect("commit");
-    Acct { name, uuid, anon: false, prim, pwbad, cred_id, totps, vf: None, ex: None }
+    Acct { name, uuid, anon: false, prim, pwbad, cred_id, totps, passkey, vf: None, ex: None }
 }
 
 async fn set_window(idms: &IdmServer, who: &mut Acct, vf: Option<u64>, ex: Option<u64>) {
@@ -636,7 +647,7 @@ fn alphabet(p: Phase, full: bool) -> Vec<Step> {
             v
         }
         // after the end: one more step of each sort, never deeper
-        Phase::Dead => vec![Step::Begin(Mech::Password), Step::Begin(Mech::PasswordTotp), Step::Cred(Cred::Password(true)), Step::Cred(Cred::Totp(Tk::Cur)), Step::Cred(Cred::Backup(true)), Step::Cred(Cred::Anonymous)],
+        Phase::Dead => vec![Step::Begin(Mech::Password), Step::Begin(Mech::PasswordTotp), Step::Cred(Cred::Password(true)), Step::Cred(Cred::Totp(Tk::Cur))],
     }
 }
 
@@ -647,7 +658,7 @@ fn main() {
     let mut rng = Rng::new(args.seed);
     let mut sink = Sink::new(&args, "KV.C27.Model", 400);
     sink.rule = "one case = one authentication session (CSess) or two interleaved sessions of one account (CInter) on a real in-memory IdmServer, driven through auth Init/Begin/Cred. \
-(1) exhaustive: for each of 9 account shapes (no credential, password, generated password, badlisted password, password+TOTP, +2 TOTP, +TOTP+backup codes, badlisted password+TOTP+backup, anonymous) every step sequence up to length 4 (quick) / 5 (thorough) over {7 mechanisms} x {anonymous, right/wrong password, TOTP of current/previous/older/next window/wrong, right/wrong backup code, junk security-key and passkey assertions}, pruned: before a mechanism is chosen 3 representative credential steps, while in progress 2 representative Begin steps, after the session ended exactly one further step (6 representatives); \
+(1) exhaustive: for each of 13 account shapes (no credential, password, generated password, badlisted password, password+TOTP, +2 TOTP, +TOTP+backup codes, badlisted password+TOTP+backup, password+security key, password+TOTP+backup+security key+passkey, passkey only, password+passkey, anonymous; WebAuthn keys are fixtures no authenticator holds) every step sequence up to length 4 (quick; length 3 for six of the shapes) / 5 (thorough) over {7 mechanisms} x {anonymous, right/wrong password, TOTP of current/previous/older/next window/wrong, right/wrong backup code, junk security-key and passkey assertions}, pruned: before a mechanism is chosen 3 representative credential steps, while in progress 2 representative Begin steps, after the session ended exactly one further step (4 representatives); \
 (2) validity: sessions begun 1 ns before / exactly at / after valid_from and expire; (3) soft lock: sessions begun, continued or re-begun within / exactly at / just after one second of a failure on the same credential, and random interleavings of two sessions; (4) random sequences up to length 10 over the full alphabet. \
 non-trivial = at least one credential step was processed by a handler (answered Success, Continue or Denied)".into();
     let rt = tokio::runtime::Builder::new_current_thread().enable_all().build().expect("rt");
@@ -655,28 +666,36 @@ non-trivial = at least one credential step was processed by a handler (answered 
     rt.block_on(add_badlist(&idms, PW_LISTED));
 
     // ---------------------------------------------------------------- accounts
-    let shapes: Vec<(Prim, bool, usize)> = vec![
-        (Prim::None, false, 0),
-        (Prim::Pw, false, 0),
-        (Prim::Gen, false, 0),
-        (Prim::Pw, true, 0),
-        (Prim::Mfa { totp: true, backup: false }, false, 1),
-        (Prim::Mfa { totp: true, backup: false }, false, 2),
-        (Prim::Mfa { totp: true, backup: true }, false, 1),
-        (Prim::Mfa { totp: true, backup: true }, true, 1),
+    // (primary credential, password badlisted, number of TOTPs, has a passkey)
+    let shapes: Vec<(Prim, bool, usize, bool)> = vec![
+        (Prim::None, false, 0, false),
+        (Prim::Pw, false, 0, false),
+        (Prim::Gen, false, 0, false),
+        (Prim::Pw, true, 0, false),
+        (Prim::Mfa { totp: true, seckey: false, backup: false }, false, 1, false),
+        (Prim::Mfa { totp: true, seckey: false, backup: false }, false, 2, false),
+        (Prim::Mfa { totp: true, seckey: false, backup: true }, false, 1, false),
+        (Prim::Mfa { totp: true, seckey: false, backup: true }, true, 1, false),
+        // fixture WebAuthn credentials: the mechanisms are offered, every assertion fails
+        (Prim::Mfa { totp: false, seckey: true, backup: false }, false, 0, false),
+        (Prim::Mfa { totp: true, seckey: true, backup: true }, false, 1, true),
+        (Prim::None, false, 0, true),
+        (Prim::Pw, false, 0, true),
     ];
     let mut accts: Vec<Acct> = vec![];
-    for (i, (p, bad, nt)) in shapes.iter().enumerate() {
-        accts.push(rt.block_on(mk_account(&idms, i as u64, *p, *bad, *nt, &mut rng)));
+    for (i, (p, bad, nt, pk)) in shapes.iter().enumerate() {
+        accts.push(rt.block_on(mk_account(&idms, i as u64, *p, *bad, *nt, *pk, &mut rng)));
     }
-    accts.push(Acct { name: "anonymous".to_string(), uuid: UUID_ANONYMOUS, anon: true, prim: Prim::None, pwbad: false, cred_id: None, totps: vec![], vf: None, ex: None });
+    accts.push(Acct { name: "anonymous".to_string(), uuid: UUID_ANONYMOUS, anon: true, prim: Prim::None, pwbad: false, cred_id: None, totps: vec![], passkey: false, vf: None, ex: None });
 
     let mut g = Gen { w: World { idms: &idms, delayed, rt }, sink, slot: 0, days: vec![], tmax: 0 };
     let _ = g.w.drain();
 
     // ---------------------------------------------------------------- (1) exhaustive, pruned
-    let depth = if args.thorough { 5 } else { 4 };
     for ai in 0..accts.len() {
+        // quick: the shapes that differ from a sibling only in an oracle (badlisted password, a second
+        // TOTP) or in the WebAuthn fixture are explored one step less deep
+        let depth = if args.thorough { 5 } else if [3usize, 5, 7, 10, 11, 12].contains(&ai) { 3 } else { 4 };
         // level by level: (sequence, phase after it)
         let mut level: Vec<(Vec<Step>, Phase, bool)> = vec![(vec![], Phase::Init, false)];
         for dlev in 0..depth {
@@ -755,7 +774,7 @@ non-trivial = at least one credential step was processed by a handler (answered 
     let n_inter = if args.thorough { 6000 } else { 1000 };
     let gaps: [u64; 7] = [G / 4, G / 2, G - 1, G, G + 1, 2 * G, 5 * G / 2];
     for k in 0..n_inter {
-        let ai = *rng.pick(&[1usize, 2, 3, 4, 5, 6, 7]);
+        let ai = *rng.pick(&[1usize, 2, 3, 4, 5, 6, 7, 9]);
         let who = &accts[ai];
         let t0 = g.fresh_time(ai);
         let mut t = t0;
@@ -777,8 +796,12 @@ non-trivial = at least one credential step was processed by a handler (answered 
         // the mechanisms this account really offers, to bias towards live sessions
         let offered: Vec<Mech> = match who.prim {
             Prim::Pw | Prim::Gen => vec![Mech::Password],
-            Prim::Mfa { backup, .. } => {
-                if backup { vec![Mech::PasswordTotp, Mech::PasswordBackupCode] } else { vec![Mech::PasswordTotp] }
+            Prim::Mfa { totp, seckey, backup } => {
+                let mut v = vec![];
+                if totp { v.push(Mech::PasswordTotp) }
+                if backup { v.push(Mech::PasswordBackupCode) }
+                if seckey { v.push(Mech::PasswordSecurityKey) }
+                v
             }
             Prim::None => vec![],
         };
